@@ -28,7 +28,17 @@ fn custom_try(key: &str, form: u8) -> Out<(String, Value)> {
         2 => guard(|| CustomClaim::try_from((key.to_string(), true)).map(|c| (c.as_ref().0.clone(), json!(c.as_ref().1))), reserved_variant).0,
         3 => guard(|| CustomClaim::try_from((key, json!({"nested": [1, 2]}))).map(|c| (c.as_ref().0.clone(), c.as_ref().1.clone())), reserved_variant).0,
         4 => guard(|| CustomClaim::try_from((key.to_string(), vec!["a".to_string()])).map(|c| (c.as_ref().0.clone(), json!(c.as_ref().1))), reserved_variant).0,
-        _ => guard(|| CustomClaim::try_from((key, "text")).map(|c| (c.as_ref().0.clone(), json!(c.as_ref().1))), reserved_variant).0,
+        5 => guard(|| CustomClaim::try_from((key, "text")).map(|c| (c.as_ref().0.clone(), json!(c.as_ref().1))), reserved_variant).0,
+        // value types a JSON *value* cannot hold but a claim may (the builder serialises them through the writer): 128-bit
+        // integers beyond 64 bits, also inside Option / Vec; and a few more native kinds
+        6 => guard(|| CustomClaim::try_from((key, u128::MAX)).map(|c| (c.as_ref().0.clone(), json!(c.as_ref().1.to_string()))), reserved_variant).0,
+        7 => guard(|| CustomClaim::try_from((key.to_string(), i128::MIN)).map(|c| (c.as_ref().0.clone(), json!(c.as_ref().1.to_string()))), reserved_variant).0,
+        8 => guard(|| CustomClaim::try_from((key, Some(u128::MAX))).map(|c| (c.as_ref().0.clone(), json!(format!("{:?}", c.as_ref().1)))), reserved_variant).0,
+        9 => guard(|| CustomClaim::try_from((key.to_string(), vec![u128::MAX, 1])).map(|c| (c.as_ref().0.clone(), json!(format!("{:?}", c.as_ref().1)))), reserved_variant).0,
+        10 => guard(|| CustomClaim::try_from((key, 1.5f32)).map(|c| (c.as_ref().0.clone(), json!(c.as_ref().1))), reserved_variant).0,
+        11 => guard(|| CustomClaim::try_from((key.to_string(), ())).map(|c| (c.as_ref().0.clone(), Value::Null)), reserved_variant).0,
+        12 => guard(|| CustomClaim::try_from((key, 'c')).map(|c| (c.as_ref().0.clone(), json!(c.as_ref().1))), reserved_variant).0,
+        _ => guard(|| CustomClaim::try_from((key.to_string(), (1u8, "t"))).map(|c| (c.as_ref().0.clone(), json!(c.as_ref().1))), reserved_variant).0,
     }
 }
 fn form_value(form: u8) -> Value {
@@ -38,10 +48,18 @@ fn form_value(form: u8) -> Value {
         2 => json!(true),
         3 => json!({"nested": [1, 2]}),
         4 => json!(["a"]),
-        _ => json!("text"),
+        5 => json!("text"),
+        6 => json!(u128::MAX.to_string()),
+        7 => json!(i128::MIN.to_string()),
+        8 => json!(format!("{:?}", Some(u128::MAX))),
+        9 => json!(format!("{:?}", vec![u128::MAX, 1])),
+        10 => json!(1.5f32),
+        11 => Value::Null,
+        12 => json!('c'),
+        _ => json!((1u8, "t")),
     }
 }
-const FORM_NAMES: [&str; 6] = ["&str", "(&str,i64)", "(String,bool)", "(&str,Value)", "(String,Vec<String>)", "(&str,&str)"];
+const FORM_NAMES: [&str; 14] = ["&str", "(&str,i64)", "(String,bool)", "(&str,Value)", "(String,Vec<String>)", "(&str,&str)", "(&str,u128)", "(String,i128)", "(&str,Option<u128>)", "(String,Vec<u128>)", "(&str,f32)", "(String,())", "(&str,char)", "(String,(u8,&str))"];
 
 fn time_try(ctor: u8, owned: bool, text: &str) -> Out<(String, String)> {
     macro_rules! go {
@@ -234,7 +252,7 @@ pub fn run(tier: &str, seed: u64) -> Report {
         "key", "keys", "footer", "implicit", "assertion", "version", "purpose", "paseto", "token", "payload", "expires", "expiration", "not_before", "issued_at", "issuer", "subject", "audience", "jwt", "exp2",
         "k4.lid", "k4.pid", "k4.sid", "local", "public", "v4", "seal", "wrap", "pw",
     ] {
-        for form in 0..6u8 {
+        for form in 0..14u8 {
             cases.push(Case::Key { key: name.to_string(), form, class: "dictionary".into() });
         }
     }
@@ -275,7 +293,7 @@ pub fn run(tier: &str, seed: u64) -> Report {
         }
         vars.push(rk.to_string());
         for v in vars {
-            for form in 0..6u8 {
+            for form in 0..14u8 {
                 cases.push(Case::Key { key: v.clone(), form, class: "decorated".into() });
             }
         }
@@ -293,7 +311,7 @@ pub fn run(tier: &str, seed: u64) -> Report {
                 s
             }
         };
-        cases.push(Case::Key { key, form: rng.below(6) as u8, class: "random".into() });
+        cases.push(Case::Key { key, form: rng.below(14) as u8, class: "random".into() });
     }
     // (4) time constructors: the C11 rendering space
     // ... incl. the first and last representable years (0000-01-01, 0000-12-31, 0001-01-01, 9999-12-31T23:59:59) and 1969
@@ -433,4 +451,4 @@ pub fn replay(case: &Value) -> Report {
     r
 }
 
-pub const RULE: &str = "CustomClaim::try_from: ALL strings of length 0..=4 over the 13 letters of the reserved keys plus 'E', space and NUL (69 905 keys) x the three constructor forms (&str, (&str,T), (String,T)); ALL strings of length 1..3 (thorough 4) over those 13 letters plus 19 separator / quote characters (, ; | : . space TAB LF / - _ quotes brackets braces: what a joined or packed representation of the reserved list contains); ALL 18 278 lower-case ASCII strings of length 1..3; a dictionary of 75 names from neighbouring specifications (kid, wpk, typ, nonce, scope, email ...) x six forms; ~50 decorated variants (case, whitespace, NUL, zero-width, homoglyphs, reversed, truncated, extended, and three-character look-alikes under narrowing to 7/8/16 bits or under (a<<16|b<<8|c) bit-packing) of each of the seven keys x six forms/value types; 20 000 (thorough 2 000 000) random Unicode keys; oracle: fails with the reserved-key error iff the key is literally one of the seven, otherwise succeeds keeping key and value. Time constructors (ExpirationClaim, NotBeforeClaim, IssuedAtClaim x &str/String): 19 instants (incl. 0000-01-01, 0001-01-01, 1969, 9999-12-31T23:59:59) x UTC offsets -23:59..+23:59 (every 7th plus the extremes; thorough: all) x 0..9 fractional digits, 'Z' and '-00:00' forms and leap seconds (seconds field 60, the examples of RFC 3339 section 5.8) must be accepted and kept verbatim; strings in the RFC 3339 layout with a month or day outside 01-12 / 01-31 must be refused (also read back through a built token); strings outside a deliberately broad recogniser of ISO 8601 date prefixes (optional sign + >= 4 digits) must be refused — incl. long ones whose multi-byte characters straddle every byte offset up to 130, and a panic is not a refusal; lenient renderings and possibly-date strings are recorded without verdict. distinct_nontrivial = distinct (class, form/constructor, key or text shape) tuples";
+pub const RULE: &str = "CustomClaim::try_from: ALL strings of length 0..=4 over the 13 letters of the reserved keys plus 'E', space and NUL (69 905 keys) x the three constructor forms (&str, (&str,T), (String,T)); ALL strings of length 1..3 (thorough 4) over those 13 letters plus 19 separator / quote characters (, ; | : . space TAB LF / - _ quotes brackets braces: what a joined or packed representation of the reserved list contains); ALL 18 278 lower-case ASCII strings of length 1..3; a dictionary of 75 names from neighbouring specifications (kid, wpk, typ, nonce, scope, email ...) x fourteen forms; ~50 decorated variants (case, whitespace, NUL, zero-width, homoglyphs, reversed, truncated, extended, and three-character look-alikes under narrowing to 7/8/16 bits or under (a<<16|b<<8|c) bit-packing) of each of the seven keys x fourteen forms/value types (incl. u128/i128 beyond 64 bits, alone and inside Option/Vec, f32, unit, char, tuple); 20 000 (thorough 2 000 000) random Unicode keys; oracle: fails with the reserved-key error iff the key is literally one of the seven, otherwise succeeds keeping key and value. Time constructors (ExpirationClaim, NotBeforeClaim, IssuedAtClaim x &str/String): 19 instants (incl. 0000-01-01, 0001-01-01, 1969, 9999-12-31T23:59:59) x UTC offsets -23:59..+23:59 (every 7th plus the extremes; thorough: all) x 0..9 fractional digits, 'Z' and '-00:00' forms and leap seconds (seconds field 60, the examples of RFC 3339 section 5.8) must be accepted and kept verbatim; strings in the RFC 3339 layout with a month or day outside 01-12 / 01-31 must be refused (also read back through a built token); strings outside a deliberately broad recogniser of ISO 8601 date prefixes (optional sign + >= 4 digits) must be refused — incl. long ones whose multi-byte characters straddle every byte offset up to 130, and a panic is not a refusal; lenient renderings and possibly-date strings are recorded without verdict. distinct_nontrivial = distinct (class, form/constructor, key or text shape) tuples";
